@@ -20,6 +20,9 @@ CHECKS = {
  "C14": dict(cat="exploration", ref="4/C14", tech="property-based testing: generated return values and callback placements, result compared with the documented rule computed by a reference interpreter",
    text="Generated machines with 0-4 before/on callbacks per transition in all attach styles returning arbitrary values, decoy return values in every other group, silent transitions and queued events; after every event the returned value must be None / the single value / the list of before then on values as computed by the reference interpreter from the parsed callback log.",
    note="Trusted: reference interpreter. Order inside the before part and inside the on part is not asserted."),
+ "C05": dict(cat="exploration", ref="4/C05", tech="differential property-based testing: coroutine twin vs plain-function twin vs reference interpreter over generated async masks, yield counts and drivers",
+   text="The scenarios of C01-C04 are rendered twice, once with plain functions and once with a generated subset of callbacks/guards/validators as coroutines that really yield to the loop, and driven from sync code without a loop, inside asyncio.run, and from fresh threads in turn. Both twins must satisfy the reference interpreter (phases, arguments, results, exceptions, states, phase barrier, deferred activation before the first event) and, where the unspecified in-group order cannot matter, agree step by step; no coroutine may be left un-awaited.",
+   note="Trusted: reference interpreter. Coroutine guards inside boolean expressions / with several providers are excluded (finding K1); nested sends only from coroutine callbacks in mixed machines (K7)."),
 }
 def main():
     checks = []
